@@ -4,6 +4,7 @@ package c09
 
 import (
 	"bytes"
+	"strconv"
 	"strings"
 	"testing"
 	"unicode"
@@ -252,6 +253,16 @@ func TestDefs(t *testing.T) {
 		if !strings.HasSuffix(string(d), "\n") {
 			d = append(d, '\n')
 		}
+		titles := []string{"", " \"t\"", " 't2'", " (t3)", "\n  \"on next line\"", " \"multi\nline\"", " '\nfirst line\nsecond line\n'", " (a\nb\nc)", " \"x\n  indented\"", " 'long title that goes on and on\nand on over two lines'"}
+		// D may define labels of its own (they stay where they are); their titles may span lines as well
+		if rapid.Bool().Draw(t, "own") {
+			no := rapid.IntRange(1, 2).Draw(t, "nown")
+			for i := 0; i < no; i++ {
+				lab := "own" + strings.Repeat("y", i)
+				d = append(d, ("\nSee [" + lab + "] here.\n\n[" + lab + "]: /own" + strconv.Itoa(i) + rapid.SampledFrom(titles).Draw(t, "owntitle") + "\n")...)
+			}
+			kit.R.Class("document-has-own-definitions")
+		}
 		d = append(d, ("\n" + mkref() + "\n\nend\n")...)
 		// definitions
 		var defs strings.Builder
@@ -259,7 +270,7 @@ func TestDefs(t *testing.T) {
 		for i := 0; i < nd; i++ {
 			lab := variant(t, labels[rapid.IntRange(0, nl-1).Draw(t, "dwhich")])
 			dest := rapid.SampledFrom([]string{"/u1", "/u2", "<http://a.b/c d>", "/p?q=1&r=2", "#frag"}).Draw(t, "dest")
-			title := rapid.SampledFrom([]string{"", " \"t\"", " 't2'", " (t3)", "\n  \"on next line\"", " \"multi\nline\""}).Draw(t, "title")
+			title := rapid.SampledFrom(titles).Draw(t, "title")
 			// definitions start at column 0: an indented definition after a list
 			// would belong to the last list item (and make the list loose)
 			defs.WriteString("[" + lab + "]:" + rapid.SampledFrom([]string{" ", "  ", "\n "}).Draw(t, "dsep") + dest + title + "\n")
